@@ -40,7 +40,7 @@ Section inv.
 
   Lemma wf_step s s' : wf s -> step_inv fx watch s s' -> wf s'.
   Proof.
-    intros Hwf [t a e ok a' os ob Ha Hst Hact _ _ _ _ _ _ _ _ _ _ _|Hact _ _ _ _ _|ts _ Hact _ _ _ _ _ _]; intros t' b Hb.
+    intros Hwf [t a e ok a' os ob Ha Hst Hact _ _ _ _ _ _ _ _ _ _ _ _|Hact _ _ _ _ _|ts _ Hact _ _ _ _ _ _]; intros t' b Hb.
     - rewrite Hact in Hb. destruct (decide (t' = t)) as [->|Hne].
       + rewrite lookup_insert in Hb. injection Hb as <-.
         destruct (step_same_id _ _ _ _ _ _ _ Hst) as (Hi & Hk & Hd). destruct (Hwf t a Ha) as [H1 H2].
